@@ -13,7 +13,7 @@ Separate Extraction
   VMModel.exec1 VMModel.execute VMModel.available VMModel.bp_ltb VMModel.z_ltb
   VMCheck.wf_program VMCheck.acyclic_calls VMCheck.ends_in_halt VMCheck.exec_targets VMSpec.tables_ok VMSpec.no_break VMSpec.consts_in_range VMSpec.counts_ok
   Tokens.tk_num Tokens.all_tkinds Errors.ekind_name Errors.perr_type
-  Scan.scan Gen_Lexer.rules Lexer.lex SpecLex.lang SpecLex.star_free SpecLex.splice
+  Scan.scan Gen_Lexer.rules Lexer.lex SpecLex.lang SpecLex.star_free SpecLex.splice SpecLex.spec_rules
   MacroExtract.extract_macros
   Grammar.calculate_first_sets Grammar.add_rule Grammar.create_nt Grammar.empty_grammar Grammar.first
   MacroApply.apply_macros MacroApply.apply_macros_gen MacroApply.make_detector
